@@ -16,6 +16,24 @@ for f in sorted(glob.glob(os.path.join(V, "props", "C[0-9][0-9].json"))):
     frag.setdefault("replay_cmd_template", f"./check {pid} --replay {{path}}")
     checks.append(frag)
 base["checks"] = checks
+# engines: one harness binary (harness/src/bin/<name>.rs) per engine, found from the check modules
+import re
+engines = {}
+for c in checks:
+    pid = c["property_id"]
+    src = open(os.path.join(V, "props", pid + ".py")).read()
+    helpers = re.findall(r"^import (\w+) as \w+$|^import (_\w+)", src, re.M)
+    for h in [x for t in helpers for x in t if x]:
+        hp = os.path.join(V, "props", h + ".py")
+        if os.path.exists(hp):
+            src += open(hp).read()
+    for b in sorted(set(re.findall(r'"(c\d\d_\w+)"', src))):
+        if os.path.exists(os.path.join(V, "harness", "src", "bin", b + ".rs")):
+            e = engines.setdefault(b, {"name": b, "path": f"harness/src/bin/{b}.rs", "serves_properties": [],
+                                       "kind_free_text": "Rust conformance engine: replays TLC-emitted cases/behaviours into the real code and records executions for TLC trace validation"})
+            if pid not in e["serves_properties"]:
+                e["serves_properties"].append(pid)
+base["engines"] = [engines[k] for k in sorted(engines)]
 base["not_applicable"] = [n for n in base.get("not_applicable", []) if n["property_id"] not in claimed]
 allp = [json.loads(l)["id"] for l in open(os.path.join(V, "properties.jsonl"))]
 listed = claimed | {n["property_id"] for n in base["not_applicable"]}
